@@ -170,3 +170,4 @@ Proof.
   intros c Hc. unfold name_charb. rewrite in_ranges_rs, memb_mem. apply (spec_check_sound alnum_ranges (name_char F)); assumption.
 Qed.
 
+
